@@ -8,7 +8,9 @@
 //! in a ledger. Oracle after EVERY operation, from the statement: no uid dropped twice, every dropped
 //! uid was created, created − dropped = number of live tracked entries (values handed out by
 //! `take` / `load_owned` are dropped by the harness at once); after the cache is dropped: created =
-//! dropped. The `view` op crosses every stored type with every requested type.
+//! dropped. Identity, not only counts (`SeenTracker`): a value seen through a handle — also by a loader, which may fill
+//! the very slot that is being loaded with `get_or_insert` (script token `@T:id:n`) — is neither dropped nor replaced
+//! while its key stays in the cache (outside reload passes). The `view` op crosses every stored type with every requested type.
 
 use crate::common::*;
 use crate::eng_cache::{gen_source, IDS};
@@ -60,7 +62,7 @@ impl Engine for OwnEngine {
             }
             return l;
         }
-        gen_source(rng, &mut l, true);
+        gen_source(rng, &mut l, true, true);
         let n = rng.range(8, if tier == Tier::Thorough { 60 } else { 28 });
         // (type, id) pairs requested so far: removals and reloads aim at entries that probably exist
         let mut seen: Vec<(&'static str, &'static str)> = vec![];
@@ -102,6 +104,7 @@ impl Engine for OwnEngine {
         if first.len() != 3 || first[0] != "cfg" { rec.op(lines.first().cloned().unwrap_or_default(), "bad-op"); return; }
         let mut wx = WorldExec::new(first[1], first[2]);
         rec.op(lines[0].clone(), "ok");
+        let mut tracker = SeenTracker::begin();
         for line in &lines[1..] {
             let w: Vec<&str> = line.split_whitespace().collect();
             let out = wx.op(line);
@@ -116,6 +119,11 @@ impl Engine for OwnEngine {
                 continue;
             }
             check_ledger(&wx, rec, line);
+            // identity, not only counts: a value seen through a handle (by a loader too) is not dropped / replaced while its key stays
+            if !SeenTracker::goi_targets().is_empty() { rec.stat("loader-get-or-insert"); }
+            let mut fs = tracker.after_op(&wx, line, &wx.snapshot());
+            fs.sort_by_key(|f| !f.starts_with("dropped-while-reachable"));   // this property's own class first
+            for f in fs { rec.oracle_fail(f); }
             // the model's ghost ledger (created / gone, tracked types) against the real one, after every operation
             if w[0] != "ledger" && !wx.unspecified { let lo = wx.op("ledger"); rec.op("ledger".to_string(), lo); }
             if wx.unspecified { rec.stat(format!("truncated/{}", wx.unspecified_why)); break; }
